@@ -1549,6 +1549,11 @@ func (r *run) applyWrite(ts *tranState, in Instr, op *logOp, off uint64) bool {
 		props := []string{"C06", "C03", "C02"}
 		if len(chs) > 1 {
 			props = []string{"C08", "C06", "C02"}
+		} else if td := ts.w.table(op.Table); td != nil && fkInvolved(td) {
+			// a change of a row of a table with foreign keys that has other
+			// effects than the model predicts (e.g. a cascade that should not
+			// have happened) is also a foreign key rule violation
+			props = append(props, "C08")
 		}
 		r.verifyOwnView(ts, "after "+op.String(), props...)
 		return true
@@ -2185,4 +2190,13 @@ func (r *run) aim(ts *tranState, td *TableDef, row Row, sel int) bool {
 	}
 	r.label("writes_aimed_at_other_transactions_read_range")
 	return true
+}
+
+func fkInvolved(td *TableDef) bool {
+	for i := range td.Idx {
+		if td.Idx[i].Fk != nil || len(td.Idx[i].FkToHere) > 0 {
+			return true
+		}
+	}
+	return false
 }
